@@ -1384,7 +1384,14 @@ impl Node {
             node.keys_manager.increment_channel_id_child_index();
         }
         if !listeners.is_empty() {
-            panic!("some chain tracker listeners were not restored: {:?}", listeners);
+            // setup_channel writes the tracker (with the new listener) before the channel entry;
+            // a signer that stopped between the two writes still holds the stub, and the node
+            // repeats setup_channel.  Such a listener has never seen a block: drop it.
+            warn!(
+                "dropping {} chain tracker listener(s) without a channel entry: {:?}",
+                listeners.len(),
+                listeners.keys().collect::<Vec<_>>()
+            );
         }
         node
     }
